@@ -39,6 +39,10 @@ JOBS = [
         replace=[('MGRS::CheckCoords', dict(may_throw=True)), 'MGRS::LatitudeBand', 'MGRS::UTMRow'], const_classes=['UTMUPS'],
         cases=[('p_m1', 'in_prec == -1'), ('p0', 'in_prec == 0')] + [('p%d' % k, 'in_prec == %d' % k) for k in range(1, 12)] + [('p_out', 'in_prec < -1 || in_prec > 11')],
         description='MGRS encoder (latitude given)'),
+    Job('MGRS.Forward.nolat', 'MGRS::Forward', ['C05', 'C13', 'C14'], select=r'^((?!real lat).)*$', cname='MGRS_Forward_nolat', const_classes=['UTMUPS'], timeout=300,
+        replace=[('MGRS::Forward', dict(select=r'real lat', may_throw=True)), 'MGRS::LatitudeBand', ('UTMUPS::Reverse', dict(select='gamma', may_throw=True))],
+        inline=[('UTMUPS::Reverse', dict(select=r'^((?!gamma).)*$', cname='UTMUPS_Reverse_nogk', may_throw=True))],
+        description='MGRS encoder that derives the latitude band itself'),
     Job('MGRS.Reverse', 'MGRS::Reverse', ['C05', 'C13', 'C14'], unwind=30, strcap=29, timeout=400, replace=[LOOKUP, 'MGRS::UTMRow'], const_classes=['UTMUPS'],
         unwindset={'MGRS_Reverse.0': 30, 'MGRS_Reverse.1': 15, 'verif_index_of.0': 26, 'verif_strlen.0': 26},
         cases=[('len%d' % k, 'in_mgrs.len == %d' % k) for k in range(0, 29)],
